@@ -96,7 +96,11 @@ def inplace_mutators(prog, y):
     """In-place library operations to apply to a RESULT y while watching its source x."""
     rng = prog.rng
     nd = y.ndim
-    m = [("imul", lambda a: a.__imul__(-3.0)), ("fill_missing_blocks", lambda a: a.fill_missing_blocks()), ("conj-inplace", lambda a: a.conj(inplace=True)), ("sync_charges-inplace", lambda a: a.sync_charges(inplace=True)), ("apply_to_arrays", lambda a: a.apply_to_arrays(lambda b: b * 2)), ("drop_missing_blocks", lambda a: a.drop_missing_blocks())]
+    def self_partner(a):
+        # same structure, independent memory
+        return deep_twin(a)
+
+    m = [("imul", lambda a: a.__imul__(-3.0)), ("iadd", lambda a: a.__iadd__(self_partner(a))), ("isub", lambda a: a.__isub__(self_partner(a))), ("itruediv", lambda a: a.__itruediv__(2.0)), ("fill_missing_blocks", lambda a: a.fill_missing_blocks()), ("conj-inplace", lambda a: a.conj(inplace=True)), ("sync_charges-inplace", lambda a: a.sync_charges(inplace=True)), ("apply_to_arrays", lambda a: a.apply_to_arrays(lambda b: b * 2)), ("drop_missing_blocks", lambda a: a.drop_missing_blocks())]
     if nd >= 1:
         perm = tuple(rng.sample(range(nd), nd))
         m.append(("transpose-inplace", lambda a: a.transpose(perm, inplace=True)))
